@@ -74,6 +74,20 @@ func readTar(stream []byte) ([]tarEntry, bool, error) {
 	}
 }
 
+// reRepoTag is the shape docker accepts as a RepoTags entry: [host[:port]/]path:tag, no digest.
+var reRepoTag = regexp.MustCompile(`^(?:[a-zA-Z0-9][a-zA-Z0-9.-]*(?::[0-9]+)?/)?[a-z0-9]+(?:(?:[._]|__|-+)[a-z0-9]+)*(?:/[a-z0-9]+(?:(?:[._]|__|-+)[a-z0-9]+)*)*:([A-Za-z0-9_][A-Za-z0-9._-]{0,127})$`)
+
+// repoTagForm classifies a RepoTags entry syntactically and returns its tag part.
+func repoTagForm(t string) (form, tag string) {
+	if m := reRepoTag.FindStringSubmatch(t); m != nil {
+		return "nametag", m[1]
+	}
+	if strings.Contains(t, "@") {
+		return "digest", ""
+	}
+	return "invalid", ""
+}
+
 var reBlobPath = regexp.MustCompile(`^blobs/([a-z0-9]+)/([a-f0-9]+)$`)
 
 // auditTar parses the stream written by ImageExport and states what it holds as one event.
@@ -81,7 +95,7 @@ func auditTar(stream []byte) (vtrace.Event, []tarEntry, error) {
 	entries, gz, err := readTar(stream)
 	names, types, alg, hexs, calc, shas := []string{}, []string{}, []string{}, []string{}, []string{}, []string{}
 	ev := vtrace.Event{"ev": "tar", "gzip": b2i(gz), "layoutN": 0, "layoutV": "", "indexN": 0, "dockN": 0, "dcfg": ""}
-	idigs, irefs, dlayers, dtags := []string{}, []string{}, []string{}, []string{}
+	idigs, irefs, dlayers, dtags, dforms := []string{}, []string{}, []string{}, []string{}, []string{}
 	for _, e := range entries {
 		names = append(names, e.name)
 		types = append(types, e.typ)
@@ -131,13 +145,14 @@ func auditTar(stream []byte) (vtrace.Event, []tarEntry, error) {
 				ev["dockN"] = len(dm)
 				if len(dm) > 0 {
 					ev["dcfg"] = path.Clean(dm[0].Config)
-					dlayers, dtags = []string{}, []string{}
+					dlayers, dtags, dforms = []string{}, []string{}, []string{}
 					for _, l := range dm[0].Layers {
 						dlayers = append(dlayers, path.Clean(l))
 					}
 					for _, t := range dm[0].RepoTags {
-						i := strings.LastIndex(t, ":")
-						dtags = append(dtags, t[i+1:])
+						form, tag := repoTagForm(t)
+						dforms = append(dforms, form)
+						dtags = append(dtags, tag)
 					}
 				}
 			}
@@ -145,7 +160,7 @@ func auditTar(stream []byte) (vtrace.Event, []tarEntry, error) {
 		alg, hexs, calc, shas = append(alg, a), append(hexs, h), append(calc, c), append(shas, s)
 	}
 	ev["names"], ev["types"], ev["alg"], ev["hex"], ev["calc"], ev["sha"] = names, types, alg, hexs, calc, shas
-	ev["idigs"], ev["irefs"], ev["dlayers"], ev["dtags"] = idigs, irefs, dlayers, dtags
+	ev["idigs"], ev["irefs"], ev["dlayers"], ev["dtags"], ev["dforms"] = idigs, irefs, dlayers, dtags, dforms
 	return ev, entries, err
 }
 
